@@ -63,12 +63,12 @@ def library(n_small=2, n_big=3):
     out.append(_d("cross", [S("s1", "scatter", ["i1"], ["a", "z1"]), S("s2", "scatter", ["i2"], ["b", "z2"]),
                             S("x", "cart", ["a", "b"], ["a2", "b2"]), S("j", "fwd", ["a2", "b2"], ["c"]),
                             S("m", "mul", ["z1", "z2"], ["zz"]), dict(S("ga", "gather", ["c", "zz"], ["out"]), depth=2)],
-                  {"i1": [L(range(1, n_small + 1))], "i2": [L(range(11, 11 + n_small))]}, ["out"],
+                  {"i1": [L(range(1, n_small + 1))], "i2": [L([11 + 3 * x for x in range(n_small)])]}, ["out"],
                   {"scatter-gather", "combinator", "cross-product"}))
     out.append(_d("crossx", [S("s1", "scatter", ["i1"], ["a", "z1"]), S("s2", "scatter", ["i2"], ["b", "z2"]),
                              S("x", "cart", ["a", "b"], ["a2", "b2"]), S("j", "exec", ["a2", "b2"], ["c"]),
                              S("m", "mul", ["z1", "z2"], ["zz"]), dict(S("ga", "gather", ["c", "zz"], ["out"]), depth=2)],
-                  {"i1": [L([1, 2] if n_big > 3 else [1])], "i2": [L([11, 12])]}, ["out"],
+                  {"i1": [L([1, 2] if n_big > 3 else [1])], "i2": [L([11, 14])]}, ["out"],
                   {"scatter-gather", "combinator", "cross-product", "jobs", "multi-input"}))
     out.append(_d("cross0", [S("s1", "scatter", ["i1"], ["a", "z1"]), S("s2", "scatter", ["i2"], ["b", "z2"]),
                              S("x", "cart", ["a", "b"], ["a2", "b2"]), S("j", "fwd", ["a2", "b2"], ["c"]),
